@@ -1,8 +1,14 @@
 package scen
 
-import "time"
+import (
+	"encoding/json"
+	"time"
+
+	"verif/mc/engine"
+)
 
 func init() {
+	registerScenario("faultsearch", func(bz json.RawMessage) (engine.Scenario, error) { return FaultSearch{}, nil })
 	register("C19", func(tier string) CheckSpec {
 		budget := 280 * time.Second
 		d := 0
@@ -25,6 +31,8 @@ func init() {
 			Search{Sc: Infraction{Variant: "base"}, Depth: 3 + d},
 		)
 		us = append(us, c19Extra(tier)...)
-		return CheckSpec{MustSee: []string{"launch-rolled-back", "allocation-rolled-back", "send-failure-stops-only-that-consumer", "fault:DeleteConsumerChain/channel.ChanCloseInit", "fault:LaunchConsumer/client.CreateClient"}, Level: "fault_enumeration", Rule: "part (i): every block event of every listed scenario asserts that BeginBlock/EndBlock return no error, do not panic and return validator updates CometBFT would accept; part (ii): fault enumeration, see units; distinct_nontrivial = distinct states / fault points", Assumptions: commonAssumptions, Budget: budget, Units: us}
+		// last: it takes whatever budget the other units leave
+		us = append(us, Search{Sc: FaultSearch{}, Depth: 3 + d/2})
+		return CheckSpec{MustSee: []string{"launch-rolled-back", "allocation-rolled-back", "send-failure-stops-only-that-consumer", "fault:DeleteConsumerChain/channel.ChanCloseInit", "fault:LaunchConsumer/client.CreateClient", "fault-points-in-histories", "blocks-with-fault-points"}, Level: "fault_enumeration", Rule: "part (i): every block event of every listed scenario asserts that BeginBlock/EndBlock return no error, do not panic and return validator updates CometBFT would accept; part (ii): fault enumeration, see units; distinct_nontrivial = distinct states / fault points", Assumptions: commonAssumptions, Budget: budget, Units: us}
 	})
 }
